@@ -315,17 +315,25 @@ def e_into(S, q, bufshape, lay=None):
     return "into " + " ".join(fmt(v) for v in qs) + " " + t_buf(bufshape, lay)
 
 
+def q_lay(lay, ql):
+    """a query array whose elements are all equal is handed over as a broadcast view (all strides 0) half of the time"""
+    import zlib
+    if len(ql) >= 2 and all(str(v) == str(ql[0]) for v in ql) and zlib.crc32(str(ql[0]).encode()) & 1:
+        return "bc"
+    return lay
+
+
 def e_array(S, qshape, *qlists, qtag="dyn", lay=None):
     fmt = fmt_of(S)
     lay = lay or auto_lay(LAYS_ND, "q", qshape, qlists[0][:6])
-    return f"array {qtag} " + " ".join(t_ndarr(qshape, ql, fmt, lay) for ql in qlists)
+    return f"array {qtag} " + " ".join(t_ndarr(qshape, ql, fmt, q_lay(lay, ql)) for ql in qlists)
 
 
 def e_ainto(S, qshape, bufshape, *qlists, qtag="dyn", lay=None, blay=None):
     fmt = fmt_of(S)
     lay = lay or auto_lay(LAYS_ND, "q", qshape, qlists[0][:6])
     blay = blay or auto_lay(LAYS_ND, "b", bufshape, qlists[0][:6])
-    return f"ainto {qtag} " + " ".join(t_ndarr(qshape, ql, fmt, lay) for ql in qlists) + " " + t_buf(bufshape, blay)
+    return f"ainto {qtag} " + " ".join(t_ndarr(qshape, ql, fmt, q_lay(lay, ql)) for ql in qlists) + " " + t_buf(bufshape, blay)
 
 
 def pick_dims(rng, data_rank, qrank=None):
